@@ -167,5 +167,8 @@ def replay_refuted(cname, rf):
 
 
 def replay_input(inp):
+    """True iff the property holds on this input (a bounded-failure record {signature, what, input} is unwrapped)"""
     from bounded import c20 as b
+    if 'kind' not in inp and isinstance(inp.get('input'), dict):
+        inp = inp['input']
     return b.replay_input(inp)
